@@ -4,6 +4,7 @@ PACK = "hippolyzer/lib/base/message/data_packer.py"
 MSGSER = "hippolyzer/lib/base/message/llsd_msg_serializer.py"
 LOGGER = "hippolyzer/lib/proxy/message_logger.py"
 SER = "hippolyzer/lib/base/serialization.py"
+MSG = "hippolyzer/lib/base/message/message.py"
 
 COPY_ELSE = ("        else:\n"
              "            llsd_val = copy.deepcopy(llsd_val)\n")
@@ -500,6 +501,44 @@ VARIANTS = [
      "edits": [{"file": LLSD, "old": "def parse_binary(data: bytes):\n    if any(data.startswith(x) for x in _BINARY_HEADERS):\n        data = data.split(b'\\n', 1)[1]\n",
                 "new": "def _without_header(doc: bytes) -> bytes:\n    if b'\\n' in doc:\n"
                        "        return doc.split(b'\\n', 1)[1]\n    return doc\n\n\ndef parse_binary(data: bytes):\n    data = _without_header(data)\n"}]},
+    # ------------------------------------------------------------------ round 9
+    {"name": "R1 to_dict hands out the block's own vars (serialize converts them in place)", "file": MSG, "expect": "C12.R1",
+     "old": '                new_vars = {}\n                for var_name, val in block.items():\n                    new_vars[var_name] = val\n                dict_blocks.append(new_vars)\n',
+     "new": "                dict_blocks.append(block.vars)\n"},
+    {"name": "R1 to_dict hands out the block's vars through a local name", "file": MSG, "expect": "C12.R1",
+     "old": '                new_vars = {}\n                for var_name, val in block.items():\n                    new_vars[var_name] = val\n                dict_blocks.append(new_vars)\n',
+     "new": "                new_vars = block.vars\n                dict_blocks.append(new_vars)\n"},
+    {"name": "P1 to_dict copies each block with dict() in a comprehension", "file": MSG, "expect": "silent",
+     "old": "            dict_blocks = base_repr['body'].setdefault(block_type, [])\n            for block in self.blocks[block_type]:\n" + '                new_vars = {}\n                for var_name, val in block.items():\n                    new_vars[var_name] = val\n                dict_blocks.append(new_vars)\n',
+     "new": "            base_repr['body'][block_type] = [dict(block.items()) for block in self.blocks[block_type]]\n"},
+    {"name": "P1 to_dict copies each block's vars with .copy()", "file": MSG, "expect": "silent",
+     "old": '                new_vars = {}\n                for var_name, val in block.items():\n                    new_vars[var_name] = val\n                dict_blocks.append(new_vars)\n',
+     "new": "                dict_blocks.append(block.vars.copy())\n"},
+    {"name": "P10 carriage-return escaping through a module-level helper", "expect": "silent",
+     "edits": [{"file": LLSD, "old": "class HippoLLSDXMLFormatter(base_llsd.serde_xml.LLSDXMLFormatter, HippoLLSDBaseFormatter):\n",
+                "new": "def _escape_cr(escaped: bytes) -> bytes:\n    return escaped.replace(b\"\\r\", b\"&#13;\")\n\n\n"
+                       "class HippoLLSDXMLFormatter(base_llsd.serde_xml.LLSDXMLFormatter, HippoLLSDBaseFormatter):\n"},
+               {"file": LLSD, "all": True, "old": "        return super().xml_esc(v).replace(b\"\\r\", b\"&#13;\")\n",
+                "new": "        return _escape_cr(super().xml_esc(v))\n"}]},
+    {"name": "R10 module-level helper replaces the carriage return with a newline", "expect": "C12.R10",
+     "edits": [{"file": LLSD, "old": "class HippoLLSDXMLFormatter(base_llsd.serde_xml.LLSDXMLFormatter, HippoLLSDBaseFormatter):\n",
+                "new": "def _escape_cr(escaped: bytes) -> bytes:\n    return escaped.replace(b\"\\r\", b\"\\n\")\n\n\n"
+                       "class HippoLLSDXMLFormatter(base_llsd.serde_xml.LLSDXMLFormatter, HippoLLSDBaseFormatter):\n"},
+               {"file": LLSD, "all": True, "old": "        return super().xml_esc(v).replace(b\"\\r\", b\"&#13;\")\n",
+                "new": "        return _escape_cr(super().xml_esc(v))\n"}]},
+    {"name": "P1 deserialize converts through a static wrapper that skips plain values", "expect": "silent",
+     "edits": [{"file": MSGSER, "old": '    def can_handle(self, msg_name: str):\n', "new": '    @staticmethod\n    def _unpack_var(val, var_type):\n        if var_type in _BINARY_PACKED and not isinstance(val, bytes):\n            return val\n        return LLSDDataPacker.unpack(val, var_type)\n\n    def can_handle(self, msg_name: str):\n'},
+               {"file": MSGSER, "old": '        for block, tmpl_var in self._yield_vars(llsd_val):\n            val = block[tmpl_var.name]\n            if tmpl_var.type in _BINARY_PACKED and not isinstance(val, bytes):\n                # Only the <binary> form needs unpacking. Other implementations (OpenSim) write\n                # the values that fit as plain LLSD integers / strings, those are usable as-is.\n                continue\n            block[tmpl_var.name] = LLSDDataPacker.unpack(val, tmpl_var.type)\n', "new": '        for block, tmpl_var in self._yield_vars(llsd_val):\n            val = block[tmpl_var.name]\n            block[tmpl_var.name] = self._unpack_var(val, tmpl_var.type)\n'}]},
+    {"name": "R1 converter wrapper unpacks with a fixed type", "expect": "C12.R1",
+     "edits": [{"file": MSGSER, "old": '    def can_handle(self, msg_name: str):\n', "new": '    @staticmethod\n    def _unpack_var(val, var_type):\n        if var_type in _BINARY_PACKED and not isinstance(val, bytes):\n            return val\n        return LLSDDataPacker.unpack(val, MsgType.MVT_VARIABLE)\n\n    def can_handle(self, msg_name: str):\n'},
+               {"file": MSGSER, "old": '        for block, tmpl_var in self._yield_vars(llsd_val):\n            val = block[tmpl_var.name]\n            if tmpl_var.type in _BINARY_PACKED and not isinstance(val, bytes):\n                # Only the <binary> form needs unpacking. Other implementations (OpenSim) write\n                # the values that fit as plain LLSD integers / strings, those are usable as-is.\n                continue\n            block[tmpl_var.name] = LLSDDataPacker.unpack(val, tmpl_var.type)\n', "new": '        for block, tmpl_var in self._yield_vars(llsd_val):\n            val = block[tmpl_var.name]\n            block[tmpl_var.name] = self._unpack_var(val, tmpl_var.type)\n'}]},
+    {"name": "P7 parser class named by a class attribute, built per call", "file": SER, "expect": "silent",
+     "old": "    @classmethod\n    def deserialize(cls, reader: Reader, ctx):\n        parser = BufferedLLSDBinaryParser()\n",
+     "new": "    PARSER_CLS = BufferedLLSDBinaryParser\n\n    @classmethod\n    def deserialize(cls, reader: Reader, ctx):\n        parser = cls.PARSER_CLS()\n"},
+    {"name": "R7 parser class named by a class attribute, instance kept on the class", "file": SER, "expect": "C12.R7",
+     "old": "    @classmethod\n    def deserialize(cls, reader: Reader, ctx):\n        parser = BufferedLLSDBinaryParser()\n",
+     "new": "    PARSER_CLS = BufferedLLSDBinaryParser\n    _PARSER = None\n\n    @classmethod\n    def deserialize(cls, reader: Reader, ctx):\n"
+            "        if cls._PARSER is None:\n            cls._PARSER = cls.PARSER_CLS()\n        parser = cls._PARSER\n"},
     # ------------------------------------------------------------------ documented limits
     {"name": "X quaternion packed with two components (count still accepted by the constructor)", "file": PACK, "expect": "miss",
      "old": "MsgType.MVT_LLQuaternion: _make_llsd_tuplecoord_spec(Quaternion, needed_elems=3)",
